@@ -813,7 +813,6 @@ func TestC11GracefulShutdown(t *testing.T) {
 		})
 }
 
-
 // TestC11SlowAcks: a client that stays within the protocol and its keep-alive but answers late: a QoS 1 / QoS 2 delivery
 // is answered only after 0, 4.5 or 9 s, by which time the broker has sent the packet again once or twice, and the client -
 // as a compliant receiver does - answers EVERY copy it received (PUBACK / PUBREC per PUBLISH copy, PUBCOMP per PUBREL
